@@ -25,7 +25,21 @@ def view (s : St) (r : Option StepObs) : Json :=
     | none => []
   obj [("els", Json.arr rows.toArray), ("ac", Json.arr ac.toArray), ("placed", Json.arr placed.toArray)]
 
+/-- Failure-path fields of round h8 — a second tree kept alive (`aux`, `tt`), `live` Element arguments (current
+    members of a live tree handed to a placing call: aliasing, which the tree model cannot represent), an index
+    that is no integer (`ix`), a sort key that raises (`"key": "raise"`) — are outside the model: the runner
+    answers `unsupported` and the case is checked by the Python oracle only.  (Object KEYS are searched; keys of
+    raw dict values travel as pair lists, so no data can collide with these names.) -/
+partial def usesFailurePaths : Json → Bool
+  | .obj kvs =>
+    kvs.foldl (init := false) fun acc k v =>
+      acc || k == "live" || k == "ix" || k == "aux" || k == "tt" || (k == "key" && v == Json.str "raise")
+          || usesFailurePaths v
+  | .arr xs => xs.any usesFailurePaths
+  | _ => false
+
 def run (j : Json) : Except String Json := do
+  if usesFailurePaths j then return obj [("unsupported", Json.bool true)]
   runCase (← parseCase j) view
 
 end Flatland.Run.C08
